@@ -451,7 +451,8 @@ pub fn finish(def: &CheckDef, tier: Tier, seed: u64, mut merged: Partial, t0: In
         cov.insert("transitions".into(), json!(merged.get(t)));
         cov.insert("traces_validated_against_impl".into(), json!(merged.get(v)));
     }
-    cov.insert("exhaustive".into(), json!(def.exhaustive));
+    // a check that hit one of its own caps counts it under `caps_hit`; the run is then not exhaustive
+    cov.insert("exhaustive".into(), json!(def.exhaustive && merged.get("caps_hit") == 0));
     cov.insert("counters".into(), json!(merged.counters));
     cov.insert("maxima".into(), json!(merged.maxima));
     for (k, v) in &merged.notes {
